@@ -371,6 +371,6 @@ impl Family for ShutdownFamily {
         out.into_iter().map(|s| serde_json::to_value(s).unwrap()).collect()
     }
     fn watchdog_ms(&self) -> u64 {
-        120_000
+        60_000
     }
 }
